@@ -1,5 +1,263 @@
 //! K6: language server (ide::Cache) driven in-process.
-pub fn main(_args: &[String]) {
-    eprintln!("lsp: not implemented yet");
-    std::process::exit(2);
+//!
+//! `lv-harness lsp [--timeout-ms N] [--stop-on-panic]` reads a history from
+//! stdin, one JSON object per line, and prints one JSON line per input line:
+//!
+//!   {"op":"open","uri":U,"text":T}      invalidate + analyze + get_diagnostics   (DidOpenTextDocument::handle)
+//!   {"op":"change","uri":U,"text":T}    invalidate + analyze + get_diagnostics   (DidChangeTextDocument::handle)
+//!   {"op":"close","uri":U}              invalidate                               (DidCloseTextDocument::handle)
+//!   {"op":"diagnostics","uri":U}        get_diagnostics (probe; the server never calls it on its own)
+//!   {"op":"hover"|"definition"|"references"|"completion"|"formatting",
+//!    "uri":U,"line":L,"character":C,"with_def":bool}
+//!   {"op":"reset"}                      fresh Cache (next history)
+//!
+//! The control flow per message kind is that of src/bin/lelwel-ls.rs: the same
+//! Cache methods in the same order, the same response values (serde-serialised
+//! lsp-types values), so that a history that kills the server process kills
+//! (panics) here at the same message.
+//!
+//! Answer lines: {"i":n,"op":..,"result":V} plus, when something went wrong,
+//!   "panic":true,"msg":..      the server's main thread would have panicked here (process death)
+//!   "dead_thread":true,"thread_msg":..   a per-document analysis thread panicked while serving this message
+//! A watchdog prints {"hang":true,"i":n} and exits 3 when one message takes
+//! longer than the timeout (default 10 s).
+use lelwel::ide::Cache;
+use lsp_types::{
+    CompletionParams, DocumentFormattingParams, FormattingOptions, GotoDefinitionResponse, Hover,
+    HoverContents, MarkupContent, MarkupKind, PartialResultParams, Position,
+    PublishDiagnosticsParams, TextDocumentIdentifier, TextDocumentPositionParams, Url,
+    WorkDoneProgressParams,
+};
+use serde_json::{Value, json};
+use std::io::{BufRead, Write};
+use std::panic::{AssertUnwindSafe, catch_unwind};
+use std::sync::Mutex;
+use std::sync::atomic::{AtomicU64, Ordering};
+use std::time::{Duration, Instant};
+
+/// (on main thread?, message with location)
+static PANICS: Mutex<Vec<(bool, String)>> = Mutex::new(Vec::new());
+/// milliseconds since start at which the current message began (0 = idle), and its index
+static OP_STARTED: AtomicU64 = AtomicU64::new(0);
+static OP_INDEX: AtomicU64 = AtomicU64::new(0);
+
+/// main.rs keeps stdout locked while we run, and the watchdog thread has to be
+/// able to print: every line goes out with a single write(2) on fd 1.
+fn emit(v: &Value) {
+    use std::os::fd::FromRawFd;
+    let mut line = v.to_string();
+    line.push('\n');
+    let mut f = std::mem::ManuallyDrop::new(unsafe { std::fs::File::from_raw_fd(1) });
+    let _ = f.write_all(line.as_bytes());
+    let _ = f.flush();
+}
+
+fn take_panics() -> (Vec<String>, Vec<String>) {
+    let mut g = PANICS.lock().unwrap_or_else(|e| e.into_inner());
+    let mut main = vec![];
+    let mut worker = vec![];
+    for (is_main, msg) in g.drain(..) {
+        if is_main { main.push(msg) } else { worker.push(msg) }
+    }
+    (main, worker)
+}
+
+fn position_params(uri: &Url, pos: Position) -> TextDocumentPositionParams {
+    TextDocumentPositionParams { text_document: TextDocumentIdentifier { uri: uri.clone() }, position: pos }
+}
+
+/// What lelwel-ls.rs does for one message; the value is what it would put on the wire
+/// (the `result` of the response, or the params' diagnostics of the notification it sends).
+fn serve(cache: &mut Cache, op: &str, msg: &Value) -> Result<Value, String> {
+    let uri = || -> Result<Url, String> {
+        let s = msg.get("uri").and_then(|u| u.as_str()).ok_or("missing uri")?;
+        Url::parse(s).map_err(|e| format!("bad uri: {e}"))
+    };
+    let pos = || {
+        Position::new(
+            msg.get("line").and_then(|v| v.as_u64()).unwrap_or(0) as u32,
+            msg.get("character").and_then(|v| v.as_u64()).unwrap_or(0) as u32,
+        )
+    };
+    let text = || msg.get("text").and_then(|t| t.as_str()).unwrap_or("").to_string();
+    Ok(match op {
+        "open" | "change" => {
+            let uri = uri()?;
+            let diagnostics = {
+                cache.invalidate(&uri);
+                cache.analyze(uri.clone(), text());
+                cache.get_diagnostics(&uri)
+            };
+            let result = PublishDiagnosticsParams::new(uri, diagnostics, None);
+            let params = serde_json::to_value(&result).unwrap();
+            params.get("diagnostics").cloned().unwrap_or(Value::Null)
+        }
+        "close" => {
+            let uri = uri()?;
+            cache.invalidate(&uri);
+            Value::Null
+        }
+        "diagnostics" => {
+            let uri = uri()?;
+            serde_json::to_value(cache.get_diagnostics(&uri)).unwrap()
+        }
+        "hover" => {
+            let uri = uri()?;
+            let result = if let Some((msg, range)) = cache.hover(&uri, pos()) {
+                Some(Hover {
+                    contents: HoverContents::Markup(MarkupContent { kind: MarkupKind::Markdown, value: msg }),
+                    range: Some(range),
+                })
+            } else {
+                None
+            };
+            serde_json::to_value(&result).unwrap()
+        }
+        "definition" => {
+            let uri = uri()?;
+            let result = cache.goto_definition(&uri, pos()).map(GotoDefinitionResponse::Scalar);
+            serde_json::to_value(&result).unwrap()
+        }
+        "references" => {
+            let uri = uri()?;
+            let with_decl = msg.get("with_def").and_then(|v| v.as_bool()).unwrap_or(false);
+            let locs = cache.references(&uri, pos(), with_decl);
+            serde_json::to_value(Some(locs)).unwrap()
+        }
+        "completion" => {
+            let uri = uri()?;
+            let params = CompletionParams {
+                text_document_position: position_params(&uri, pos()),
+                work_done_progress_params: WorkDoneProgressParams::default(),
+                partial_result_params: PartialResultParams::default(),
+                context: None,
+            };
+            serde_json::to_value(cache.completion(params)).unwrap()
+        }
+        "formatting" => {
+            let uri = uri()?;
+            let params = DocumentFormattingParams {
+                text_document: TextDocumentIdentifier { uri },
+                options: FormattingOptions { tab_size: 4, insert_spaces: true, ..Default::default() },
+                work_done_progress_params: WorkDoneProgressParams::default(),
+            };
+            serde_json::to_value(cache.formatting(params)).unwrap()
+        }
+        other => return Err(format!("unknown op {other}")),
+    })
+}
+
+pub fn main(args: &[String]) {
+    let mut timeout_ms: u64 = 10_000;
+    let mut stop_on_panic = false;
+    let mut i = 0;
+    while i < args.len() {
+        match args[i].as_str() {
+            "--timeout-ms" => {
+                i += 1;
+                timeout_ms = args.get(i).and_then(|s| s.parse().ok()).unwrap_or(timeout_ms);
+            }
+            "--stop-on-panic" => stop_on_panic = true,
+            _ => {}
+        }
+        i += 1;
+    }
+
+    let main_id = std::thread::current().id();
+    std::panic::set_hook(Box::new(move |info| {
+        let payload = info.payload();
+        let mut msg = if let Some(s) = payload.downcast_ref::<&str>() {
+            s.to_string()
+        } else if let Some(s) = payload.downcast_ref::<String>() {
+            s.clone()
+        } else {
+            "<non-string panic payload>".to_string()
+        };
+        if let Some(loc) = info.location() {
+            msg = format!("{msg} @ {}:{}", loc.file(), loc.line());
+        }
+        let is_main = std::thread::current().id() == main_id;
+        PANICS.lock().unwrap_or_else(|e| e.into_inner()).push((is_main, msg));
+    }));
+
+    let t0 = Instant::now();
+    std::thread::spawn(move || {
+        loop {
+            std::thread::sleep(Duration::from_millis(25));
+            let started = OP_STARTED.load(Ordering::SeqCst);
+            if started != 0 {
+                let now = t0.elapsed().as_millis() as u64 + 1;
+                if now.saturating_sub(started) > timeout_ms {
+                    emit(&json!({"hang": true, "i": OP_INDEX.load(Ordering::SeqCst)}));
+                    std::process::exit(3);
+                }
+            }
+        }
+    });
+
+    let mut cache = Cache::default();
+    let mut dead = false; // the real server process would be gone
+    let mut n: u64 = 0;
+    let stdin = std::io::stdin();
+    for line in stdin.lock().lines() {
+        let Ok(line) = line else { break };
+        if line.trim().is_empty() {
+            continue;
+        }
+        let idx = n;
+        n += 1;
+        let msg: Value = match serde_json::from_str(&line) {
+            Ok(v) => v,
+            Err(e) => {
+                emit(&json!({"i": idx, "bad_input": e.to_string()}));
+                continue;
+            }
+        };
+        let op = msg.get("op").and_then(|o| o.as_str()).unwrap_or("").to_string();
+        if op == "reset" {
+            // detaches the analysis threads (their request channel closes and they return)
+            cache = Cache::default();
+            dead = false;
+            take_panics();
+            emit(&json!({"i": idx, "op": "reset"}));
+            continue;
+        }
+        if dead && stop_on_panic {
+            emit(&json!({"i": idx, "op": op, "skipped_after_panic": true}));
+            continue;
+        }
+        OP_INDEX.store(idx, Ordering::SeqCst);
+        OP_STARTED.store(t0.elapsed().as_millis() as u64 + 1, Ordering::SeqCst);
+        let res = catch_unwind(AssertUnwindSafe(|| serve(&mut cache, &op, &msg)));
+        OP_STARTED.store(0, Ordering::SeqCst);
+        let (main_panics, worker_panics) = take_panics();
+        let mut out = serde_json::Map::new();
+        out.insert("i".into(), json!(idx));
+        out.insert("op".into(), json!(op));
+        match res {
+            Ok(Ok(v)) => {
+                out.insert("result".into(), v);
+            }
+            Ok(Err(e)) => {
+                out.insert("bad_input".into(), json!(e));
+            }
+            Err(_) => {
+                out.insert("panic".into(), json!(true));
+                out.insert("msg".into(), json!(main_panics.join(" | ")));
+                dead = true;
+            }
+        }
+        if !worker_panics.is_empty() {
+            // The hook ran before the thread started to unwind; whether the *next* message sees
+            // `handle.is_finished()` (assert), a closed request channel (send(..).unwrap()) or, for a few
+            // microseconds, neither (and is answered null) is a race in the server.  Let the thread
+            // finish, so that the in-process run is deterministic: the next message for the document panics.
+            std::thread::sleep(Duration::from_millis(40));
+            out.insert("dead_thread".into(), json!(true));
+            out.insert("thread_msg".into(), json!(worker_panics.join(" | ")));
+        }
+        emit(&Value::Object(out));
+    }
+    // analysis threads still alive are detached; leave without joining them
+    std::process::exit(0);
 }
